@@ -2,6 +2,7 @@ import Blots.Lemmas.OfRatio
 import Blots.Lemmas.OfRatioScale
 import Blots.Lemmas.ParseDec
 import Blots.Lemmas.Shortest
+import Blots.Lemmas.Shortest17
 import Blots.Lemmas.NumText
 import Blots.Lemmas.SrcNumber
 /-
@@ -28,9 +29,13 @@ import Blots.Lemmas.SrcNumber
       double, and `{:.0}` of every integral double read back — through `str::parse`
       (`to_number`) and through the literal conversion of the parser — as the identical
       double.
-  Assumption, explicit in the statements: `ShortestFound true x` — the 18-round search of the
-  shortest-digits model finds a candidate (17 significant digits always suffice for a
-  double; validated by the harness on every sampled double, key `c16.model.shortest-found`).
+  `ShortestFound true x` — the 18-round search of the shortest-digits model finds a candidate —
+  was a hypothesis of the read-back theorems (`to_string_reads_back`, `source_text_reads_back`,
+  kept below).  It is now PROVED for every finite non-zero double
+  (`shortest_digits_always_found`: 17 significant digits always read back, because a decimal
+  within relative distance 1/(2·10^16) of a double rounds to it,
+  `correct_rounding_within_17_digits`), so the `…_all` theorems carry no such hypothesis.  The
+  harness still validates it on every sampled double (key `c16.model.shortest-found`).
   Not modelled: the number *reader* of serde_json (an external library).  It is compared with
   the specification by the harness and is NOT correctly rounded on the pinned tree
   (`float_roundtrip` off): known finding `c16.json-roundtrip`.
@@ -134,6 +139,33 @@ theorem source_text_reads_back (x : F64) (hf : x.isFinite = true)
     parseDec (srcNumber x) = some x ∧ literalValue (srcNumber x) = some x :=
   ⟨parseDec_srcNumber x hf h, literalValue_srcNumber x hf h⟩
 
+/-- correct rounding is NEAREST with room for 17 digits: a fraction `n/d` within relative
+    distance `1/(2·10^16)` of the exact value `|x|` of a finite non-zero double converts to `|x|`
+    (`S17.qv n d` is the rational `n/d`) -/
+theorem correct_rounding_within_17_digits (x : F64) (hf : x.isFinite = true) (hz : x.isZero = false)
+    (n d : Nat) (hd : 0 < d)
+    (hlo : S17.qv x.ratio.1 x.ratio.2 - S17.qv x.ratio.1 x.ratio.2 / (2 * 10 ^ 16) ≤ S17.qv n d)
+    (hhi : S17.qv n d ≤ S17.qv x.ratio.1 x.ratio.2 + S17.qv x.ratio.1 x.ratio.2 / (2 * 10 ^ 16)) :
+    ofRatio false n d = x.abs :=
+  S17.ofRatio_eq_abs_of_close x hf hz n d hd hlo hhi
+
+/-- the shortest-digits search finds a digit string within its 17-digit budget for EVERY finite
+    non-zero double, under Rust's tie rule (`true`) and ryu's (`false`) -/
+theorem shortest_digits_always_found (tieUp : Bool) (x : F64) (hf : x.isFinite = true)
+    (hz : x.isZero = false) : ShortestFound tieUp x :=
+  shortest_always_found tieUp x hf hz
+
+/-- `to_number(to_string(x)) = x` for every finite double, no side condition -/
+theorem to_string_reads_back_all (x : F64) (hf : x.isFinite = true) :
+    toNumberStr (toStringNum x) = some x :=
+  parseDec_toDisplay x hf (zero_or_found x hf)
+
+/-- emitted-source / formatter number text reads back exactly for every finite double, through
+    `str::parse` and through the literal conversion of the parser, no side condition -/
+theorem source_text_reads_back_all (x : F64) (hf : x.isFinite = true) :
+    parseDec (srcNumber x) = some x ∧ literalValue (srcNumber x) = some x :=
+  ⟨parseDec_srcNumber x hf (zero_or_found x hf), literalValue_srcNumber x hf (zero_or_found x hf)⟩
+
 /-- the parser reads `-5` as the negation operator applied to the literal `5`: negating the
     magnitude gives back a negative number -/
 theorem negated_literal_reads_back (x : F64) (hn : x.neg = true) : x.abs.negate = x :=
@@ -148,5 +180,26 @@ example : ShortestFound true (ofNatBits 0x3FB999999999999A) := by unfold Shortes
 example : srcNumber (ofNatBits 0x3FB999999999999A) = "0.1" := by decide
 example : srcNumber (ofNatBits 0x430C6BF526340000) = "1000000000000000" := by decide     -- 1e15: to_string
 example : toStringNum negZero = "-0" ∧ toNumberStr "-0" = some negZero := by decide
+-- the unconditional read-back on 0.1, 1/3, f64::MAX, the smallest subnormal 5e-324, the smallest
+-- normal 2^-1022, and 9007199254740993.0 (the double 2^53, a power of two: narrower gap below)
+example : toNumberStr (toStringNum (ofNatBits 0x3FB999999999999A)) = some (ofNatBits 0x3FB999999999999A) :=
+  to_string_reads_back_all _ (by decide)
+example : toNumberStr (toStringNum (ofNatBits 0x3FD5555555555555)) = some (ofNatBits 0x3FD5555555555555) :=
+  to_string_reads_back_all _ (by decide)
+example : toNumberStr (toStringNum (ofNatBits 0x7FEFFFFFFFFFFFFF)) = some (ofNatBits 0x7FEFFFFFFFFFFFFF) :=
+  to_string_reads_back_all _ (by decide)
+example : toNumberStr (toStringNum (ofNatBits 1)) = some (ofNatBits 1) :=
+  to_string_reads_back_all _ (by decide)
+example : toNumberStr (toStringNum (ofNatBits 0x0010000000000000)) = some (ofNatBits 0x0010000000000000) :=
+  to_string_reads_back_all _ (by decide)
+example : parseDec "9007199254740993.0" = some (ofNatBits 0x4340000000000000) := by decide
+example : literalValue (srcNumber (ofNatBits 0x4340000000000000)) = some (ofNatBits 0x4340000000000000) :=
+  (source_text_reads_back_all _ (by decide)).2
+example : toStringNum (ofNatBits 0x3FD5555555555555) = "0.3333333333333333" := by decide
+example : toStringNum (ofNatBits 0x4340000000000000) = "9007199254740992" := by decide
+example : (ofNatBits 1).shortestDigitsWith true = (5, -324) := by decide +kernel
+example : ShortestFound false (ofNatBits 0x3E60000000000000) :=          -- 2^-25, a tie between candidates
+  shortest_digits_always_found false _ (by decide) (by decide)
+example : (ofNatBits 0x7FEFFFFFFFFFFFFF).isZero = false ∧ (ofNatBits 1).isZero = false := by decide
 
 end Blots.C16
